@@ -23,6 +23,8 @@ pub struct Profile {
     pub odd_bodies: bool,
     /// descriptions that contain a libninja directive (P16)
     pub directive_docs: bool,
+    /// shapes on which the unchanged code was seen to violate a property (kept in D by the property texts)
+    pub wild: bool,
 }
 
 impl Profile {
@@ -39,7 +41,11 @@ impl Profile {
             servers: true,
             odd_bodies: false,
             directive_docs: false,
+            wild: false,
         }
+    }
+    pub fn wild() -> Self {
+        Profile { wild: true, array_components: true, odd_bodies: true, ..Profile::rich() }
     }
     pub fn rich() -> Self {
         Profile { hard_names: true, docs: true, max_components: 8, max_ops: 6, synth_names: true, ..Profile::safe() }
@@ -189,8 +195,16 @@ pub fn gen_spec(rng: &mut Rng, p: &Profile) -> Spec {
             },
             9 if !refs.is_empty() => {
                 // allOf of a ref and an inline object
-                let r = SRef::Ref(refs[rng.below(refs.len())].clone());
-                Schema { kind: Kind::AllOf(vec![r, inl(object_schema(rng, p, &refs))]), descr: doc(rng, p), ..Default::default() }
+                let target = refs[rng.below(refs.len())].clone();
+                let r = SRef::Ref(target.clone());
+                // D: property names of one object, allOf members included, are pairwise distinct after normalisation
+                let taken_names = body_prop_names(&spec, &target);
+                let mut o = object_schema(rng, p, &refs);
+                if let Kind::Object { props, required, .. } = &mut o.kind {
+                    props.retain(|(k, _)| !taken_names.contains(&norm(k)));
+                    required.retain(|q| props.iter().any(|(k, _)| k == q));
+                }
+                Schema { kind: Kind::AllOf(vec![r, inl(o)]), descr: doc(rng, p), ..Default::default() }
             }
             10 if !refs.is_empty() => {
                 // single-member allOf alias, sometimes nullable
@@ -198,6 +212,11 @@ pub fn gen_spec(rng: &mut Rng, p: &Profile) -> Spec {
                 Schema { kind: Kind::AllOf(vec![r]), nullable: rng.chance(1, 2), ..Default::default() }
             }
             11 => prim(rng),
+            12 if p.array_components && rng.chance(1, 2) => {
+                let o = object_schema(rng, p, &refs);
+                obj_names.push(name.clone()); // may be referenced like a model (P5)
+                s_arr(inl(o))
+            }
             12 => s_arr(if !refs.is_empty() && rng.chance(1, 2) { SRef::Ref(refs[rng.below(refs.len())].clone()) } else { inl(prim(rng)) }),
             _ => object_schema(rng, p, &refs),
         };
@@ -205,6 +224,14 @@ pub fn gen_spec(rng: &mut Rng, p: &Profile) -> Spec {
             obj_names.push(name.clone());
         }
         spec.components.push((name.clone(), sc));
+    }
+    if p.wild && p.array_components && rng.chance(1, 6) && !names.iter().any(|n| n == "Item" || n == "Items") {
+        // a plural array component with inline items, declared after the component its invented item name would take
+        let o1 = object_schema(rng, p, &[]);
+        let o2 = object_schema(rng, p, &[]);
+        spec.components.push(("Item".into(), o1));
+        spec.components.push(("Items".into(), s_arr(inl(o2))));
+        obj_names.push("Item".into());
     }
     let all_names: Vec<String> = names.clone();
     // ---- operations
@@ -220,9 +247,19 @@ pub fn gen_spec(rng: &mut Rng, p: &Profile) -> Spec {
     for _ in 0..nops {
         let res = resources[rng.below(resources.len())];
         let with_id = rng.chance(1, 2);
-        let path = if with_id { format!("/{}/{{id}}", res) } else { format!("/{}", res) };
+        let mut path = if with_id { format!("/{}/{{id}}", res) } else { format!("/{}", res) };
+        let mut wild_path = false;
+        if p.wild && with_id && rng.chance(1, 4) {
+            // placeholder equal to / prefixed by the previous segment, or in the middle of the path
+            path = match rng.below(3) {
+                0 => "/user/{id}".replace("id", "user"),
+                1 => format!("/{}/{{id}}/details", res),
+                _ => "/user/{user_id}".to_string(),
+            };
+            wild_path = true;
+        }
         let verb = verbs[rng.below(verbs.len())];
-        let key = format!("{} {}", verb, path.replace("{id}", "{}"));
+        let key = format!("{} {}", verb, erase_placeholders(&path));
         if path_taken.contains(&key) {
             continue;
         }
@@ -239,7 +276,7 @@ pub fn gen_spec(rng: &mut Rng, p: &Profile) -> Spec {
         if opid.is_none() {
             // synthesised name must not collide with others: verb+path key is unique already
             let synth = norm(&format!("{}{}", verb, path.replace("{id}", "byid")));
-            if op_taken.contains(&synth) {
+            if op_taken.contains(&synth) && !p.wild {
                 continue;
             }
             op_taken.push(synth);
@@ -248,8 +285,9 @@ pub fn gen_spec(rng: &mut Rng, p: &Profile) -> Spec {
         let mut params = vec![];
         let mut scope: Vec<String> = vec![];
         if with_id {
-            params.push(Param { name: "id".into(), loc: Loc::Path, required: true, schema: inl(if rng.chance(1, 2) { s_string() } else { s_int() }) });
-            scope.push("id".into());
+            let pname = if wild_path { path.split('{').nth(1).unwrap().split('}').next().unwrap().to_string() } else { "id".to_string() };
+            params.push(Param { name: pname.clone(), loc: Loc::Path, required: true, schema: inl(if rng.chance(1, 2) { s_string() } else { s_int() }) });
+            scope.push(norm(&pname));
         }
         let np = rng.below(5);
         let pool: Vec<&str> = if p.hard_names && rng.chance(1, 2) { HARD_PROPS.to_vec() } else { EASY_PROPS.to_vec() };
@@ -320,10 +358,29 @@ pub fn gen_spec(rng: &mut Rng, p: &Profile) -> Spec {
             body,
             responses,
         };
+        let mut op = op;
+        if p.wild && wild_path && path.ends_with("/details") && op.operation_id.is_none() && rng.chance(1, 2) {
+            let sib = format!("/{}/details", res);
+            if !spec.paths.iter().any(|pi| pi.path == sib) {
+                spec.paths.push(PathItem {
+                    path: sib,
+                    params: vec![],
+                    ops: vec![Op { method: op.method.clone(), operation_id: None, responses: vec![(200, None)], ..Default::default() }],
+                });
+            }
+        }
         if let Some(pi) = spec.paths.iter_mut().find(|pi| pi.path == path) {
+            // inputs already declared on the path item are inherited, not repeated
+            op.params.retain(|q| !pi.params.iter().any(|x| x.name == q.name));
             pi.ops.push(op);
         } else {
-            spec.paths.push(PathItem { path, params: vec![], ops: vec![op] });
+            // sometimes move some parameters to the path item
+            let mut item_params = vec![];
+            if rng.chance(1, 3) {
+                let k = rng.below(op.params.len() + 1);
+                item_params = op.params.split_off(op.params.len() - k);
+            }
+            spec.paths.push(PathItem { path, params: item_params, ops: vec![op] });
         }
     }
     if spec.paths.is_empty() {
@@ -344,8 +401,51 @@ pub fn gen_spec(rng: &mut Rng, p: &Profile) -> Spec {
             }
         }
     }
+    if p.wild && rng.chance(1, 3) {
+        spec.servers.clear();
+        match rng.below(3) {
+            0 => {
+                spec.servers.push(Server { url: "https://a.example.com".into(), description: Some("Main".into()) });
+                spec.servers.push(Server { url: "https://b.example.com".into(), description: None });
+            }
+            1 => {
+                spec.servers.push(Server { url: "https://a.example.com".into(), description: Some("production east".into()) });
+                spec.servers.push(Server { url: "https://b.example.com".into(), description: Some("production west".into()) });
+            }
+            _ => {
+                spec.servers.push(Server { url: "https://a.example.com/".into(), description: Some("beta".into()) });
+                spec.servers.push(Server { url: "https://b.example.com:8443/v2".into(), description: Some("the Sandbox".into()) });
+                spec.servers.push(Server { url: "https://{region}.example.com".into(), description: Some("Development".into()) });
+            }
+        }
+    }
     // ---- security
-    if p.security {
+    if p.wild && rng.chance(1, 3) {
+        match rng.below(4) {
+            0 => {
+                spec.schemes.push(("basicAuth".into(), Scheme::HttpBasic));
+                spec.security.push(vec!["basicAuth".into()]);
+            }
+            1 => {
+                spec.schemes.push(("session".into(), Scheme::ApiKey { loc: Loc::Cookie, name: "SESSIONID".into() }));
+                spec.schemes.push(("api_key2".into(), Scheme::ApiKey { loc: Loc::Header, name: "X-Api-Key-2".into() }));
+                spec.security.push(vec![]);
+                spec.security.push(vec!["session".into()]);
+                spec.security.push(vec!["api_key2".into()]);
+            }
+            2 => {
+                spec.schemes.push((
+                    "oauth".into(),
+                    Scheme::OAuth2 { auth_url: "https://example.com/authorize".into(), token_url: "https://example.com/token".into(), refresh_url: None, scopes: vec![("read".into(), "Read access".into())] },
+                ));
+                spec.security.push(vec!["oauth".into()]);
+            }
+            _ => {
+                spec.schemes.push(("bearerInQuery".into(), Scheme::ApiKey { loc: Loc::Query, name: "bearer".into() }));
+                spec.security.push(vec!["bearerInQuery".into()]);
+            }
+        }
+    } else if p.security {
         match rng.below(5) {
             0 | 1 => {}
             2 => {
@@ -399,4 +499,21 @@ fn collect_props(sc: &Schema, out: &mut Vec<String>, stack: &mut Vec<String>) {
         }
         _ => {}
     }
+}
+
+pub fn erase_placeholders(path: &str) -> String {
+    let mut out = String::new();
+    let mut depth = 0;
+    for c in path.chars() {
+        match c {
+            '{' => {
+                depth += 1;
+                out.push_str("{}");
+            }
+            '}' => depth -= 1,
+            _ if depth == 0 => out.push(c),
+            _ => {}
+        }
+    }
+    out
 }
